@@ -42,6 +42,9 @@ theorem C08_step_ok (s : St) (t : Spec.C08.S) (op : Op) (h : C08_Inv s t) :
   | cancel =>
     simp only [step, Spec.C08.stepOk, C08_Inv, true_and]
     exact ⟨hn, hc⟩
+  | monitorFailed =>
+    simp only [step, Spec.C08.stepOk, C08_Inv, true_and]
+    exact ⟨hn, hc⟩
   | send r =>
     cases hp : r.pending with
     | none =>
@@ -132,6 +135,9 @@ private theorem lower_bound (t : Spec.C08.S) (es : List Ev) (h : Spec.C08.check 
     | cancelled =>
       simp only [C08_lifetimeNonces]; intro m hm
       simpa [Spec.C08.stepOk, Spec.C08.base] using ih _ h2 m hm
+    | monFailed =>
+      simp only [C08_lifetimeNonces]; intro m hm
+      simpa [Spec.C08.stepOk, Spec.C08.base] using ih _ h2 m hm
     | restarted => simp [C08_lifetimeNonces]
 
 /-- **No reuse**: within a lifetime the successfully submitted nonces are strictly increasing. -/
@@ -153,6 +159,7 @@ theorem C08_strictly_increasing (t : Spec.C08.S) (es : List Ev) (h : Spec.C08.ch
     | failed p => cases p <;> simpa [C08_lifetimeNonces] using ih _ h2
     | mon c => simpa [C08_lifetimeNonces] using ih _ h2
     | cancelled => simpa [C08_lifetimeNonces] using ih _ h2
+    | monFailed => simpa [C08_lifetimeNonces] using ih _ h2
     | restarted => simp [C08_lifetimeNonces]
 
 /-- **Window**: every accepted submission is within 1024 of the highest confirmed nonce reported
@@ -186,6 +193,14 @@ send after a send-and-cancel still uses the consecutive nonce. -/
 theorem C08_cancel_is_invisible (s : St) (ops : List Op) :
     (step s .cancel).1 = s ∧ run s (.cancel :: ops) = .cancelled :: run s ops := by
   exact ⟨rfl, rfl⟩
+
+/-- **A monitor round that learns nothing changes nothing**: when the confirmed-nonce query of a
+round fails — whatever the node's pending-nonce query would have answered — the allocator and the
+window are as before; in particular a request that was outside the window stays outside it. -/
+theorem C08_failed_monitor_round_is_invisible (s : St) (ops : List Op) (r : SendReq) :
+    (step s .monitorFailed).1 = s ∧ run s (.monitorFailed :: ops) = .monFailed :: run s ops ∧
+    (step (step s .monitorFailed).1 (.send r)) = step s (.send r) := by
+  exact ⟨rfl, rfl, rfl⟩
 
 /-- **Across a restart** the client persists nothing; strict monotonicity then needs the chain
 node's first answer to exceed what it already accepted from this account.  Under that
